@@ -39,6 +39,29 @@ def cache_rules(ctx, rep, P):
             good = any(_same_place(root_place(b, ct["a"][0]), rp) and b.dominates(ci, i) and ci != i for ci, ct in clears)
             rep.check(P + ".cache", "%s: scratch buffer %s is cleared before it is refilled" % (key, _pname(b, rp)), good, loc_of(b, t), "",
                       "a reusable scratch buffer is appended to without being cleared first: data of the previous block leaks into this one")
+    # sizing a scratch buffer by resize() instead of clear() + fill: fine when unconditional (the buffer ends up with
+    # exactly the new length), stale when it only ever grows (`if buf.len() < n { buf.resize(n, 0) }`)
+    from okimplies import OkImplies, TOP
+    okc = OkImplies(F, ctx.cg())
+    for b in F.bodies:
+        if b.promoted is not None or not (b.file.endswith("encode.rs") or b.file.endswith("decode.rs") or b.file.endswith("audio.rs")):
+            continue
+        rs = [(i, t) for i, t in b.calls() if re.search(r"std::vec::Vec::<T, A>::resize$", callee_name(t)) and ("Vec<i32>" in t["aty"][0] or "Vec<f64>" in t["aty"][0])]
+        if not rs:
+            continue
+        clears = [(i, t) for i, t in b.calls() if CLEAR.search(callee_name(t))]
+        pf = okc.path_facts(b)
+        for i, t in rs:
+            rp = root_place(b, t["a"][0])
+            base = rp["l"] if rp else None
+            if not (base is not None and (1 <= base <= b.j["argc"] or _derived_from_arg(b, base))):
+                continue
+            f = pf.get(i, TOP)
+            name = _pname(b, rp)
+            grow_only = f is not TOP and any(x[0] == "cmp" and x[1] in ("Lt", "Le", "Gt", "Ge") and "Vec::len" in (str(x[2]) + str(x[3])) and name in (str(x[2]) + str(x[3])) for x in (f or ()))
+            cleared = any(_same_place(root_place(b, ct["a"][0]), rp) and b.dominates(ci, i) and ci != i for ci, ct in clears)
+            rep.check(P + ".cache", "%s: scratch buffer %s is resized unconditionally (or cleared first)" % (strip_generics(b.path), name), cleared or not grow_only, loc_of(b, t), "",
+                      "a reusable scratch buffer is only ever grown (resize behind a test of its own length): after a longer block it keeps the old tail, and whoever takes it as a slice sees stale samples")
     rep.floor(P + ".cache", "scratch buffer fills", n, 5)
 
     # ---- recorders in encode_subframe -----------------------------------------------------------------
